@@ -2,21 +2,24 @@
 // Spec vocabulary for ReaderState: the abstract stack of open element names (C04), whitespace
 // trimming (C16), the abstract view of events.
 // ---------------------------------------------------------------------------------------------
+pub open spec fn name_at_of(buf: Seq<u8>, starts: Seq<usize>, i: int) -> Seq<u8> {
+    let lo = starts[i] as int;
+    let hi = if i + 1 < starts.len() { starts[i + 1] as int } else { buf.len() as int };
+    buf.subrange(lo, hi)
+}
+pub open spec fn stack_of(buf: Seq<u8>, starts: Seq<usize>) -> Seq<Seq<u8>> {
+    Seq::new(starts.len(), |i: int| name_at_of(buf, starts, i))
+}
 impl ReaderState {
     /// representation invariant of the open-element stack
     pub open spec fn wf(&self) -> bool {
         &&& forall|i: int| 0 <= i < self.opened_starts@.len() ==> #[trigger] self.opened_starts@[i] <= self.opened_buffer@.len()
         &&& forall|i: int, j: int| 0 <= i <= j < self.opened_starts@.len() ==> self.opened_starts@[i] <= self.opened_starts@[j]
     }
-    pub open spec fn name_at(&self, i: int) -> Seq<u8> {
-        let lo = self.opened_starts@[i] as int;
-        let hi = if i + 1 < self.opened_starts@.len() { self.opened_starts@[i + 1] as int } else { self.opened_buffer@.len() as int };
-        self.opened_buffer@.subrange(lo, hi)
-    }
+    pub open spec fn name_at(&self, i: int) -> Seq<u8> { name_at_of(self.opened_buffer@, self.opened_starts@, i) }
     /// the abstract stack of names of the currently open elements, innermost last
-    pub open spec fn stack(&self) -> Seq<Seq<u8>> {
-        Seq::new(self.opened_starts@.len(), |i: int| self.name_at(i))
-    }
+    /// (a function of the two buffers only, so states that share them have the same stack)
+    pub open spec fn stack(&self) -> Seq<Seq<u8>> { stack_of(self.opened_buffer@, self.opened_starts@) }
     /// everything except the stack representation and the error offset is unchanged
     pub open spec fn same_control(&self, o: &ReaderState) -> bool {
         &&& self.offset == o.offset
@@ -43,6 +46,11 @@ impl ReaderState {
             assert(pre.opened_starts@[i + 1] <= pre.opened_starts@[n - 1]);
             assert(post.name_at(i) =~= pre.name_at(i));
         }
+        assert(post.stack().len() == n - 1 && pre.stack().len() == n);
+        assert forall|i: int| 0 <= i < n - 1 implies post.stack()[i] == pre.stack().drop_last()[i] by {
+            assert(post.stack()[i] == post.name_at(i));
+            assert(pre.stack()[i] == pre.name_at(i));
+        }
         assert(post.stack() =~= pre.stack().drop_last());
         assert forall|i: int| 0 <= i < post.opened_starts@.len() implies #[trigger] post.opened_starts@[i] <= post.opened_buffer@.len() by {
             assert(pre.opened_starts@[i] <= pre.opened_starts@[n - 1]);
@@ -62,6 +70,11 @@ impl ReaderState {
             assert(post.name_at(i) =~= pre.name_at(i));
         }
         assert(post.name_at(n) =~= name);
+        assert(post.stack().len() == n + 1 && pre.stack().len() == n);
+        assert forall|i: int| 0 <= i < n + 1 implies post.stack()[i] == pre.stack().push(name)[i] by {
+            assert(post.stack()[i] == post.name_at(i));
+            if i < n { assert(pre.stack()[i] == pre.name_at(i)); }
+        }
         assert(post.stack() =~= pre.stack().push(name));
     }
 }
